@@ -137,3 +137,230 @@ Theorem C01_examples :
    fresh_of (mk_graph nf_nodes) xsem_where true nf_ops 0 1 = Some (Some (XP [AFin 0; AFin 2]))).
 Proof. split; [exact test_state_wf | split; [exact diamond_wf | split; [exact f1_wf | split; [exact now_disciplined | split; [exact f1_now | exact nonfinite_now]]]]]. Qed.
 Print Assumptions C01_examples.
+
+(** * Composition with C15 and C07 (Compose/DagState.v, Compose/AxisState.v; docs/Compose.md).
+
+    The graph hypothesis [WF g] above is what dag.py must deliver.  Below it is no longer assumed: the graph is BUILT —
+    [DagModel.build] is the line-by-line model of [VariablesDAG.__post_init__] (C15), [defs] a set of variable definitions
+    ([DHyper] / [DIndep] / [DLinked parameters f], indexed by name-sorted node as in C15), [dag_of_defs defs] the
+    [direct_ancestors] mapping the constructor receives, and [graph_of_build defs r v0] the graph the [State] model works on:
+    nodes re-indexed in the order [order r] that the constructor delivered, [anc] / [desc] looked up by name in its
+    [sorted_ancestors] / [sorted_children] dictionaries, [parents] = the parameters of the node function in positional
+    order.  ([v0] is the result of the function of a node that has none; it is never called.) *)
+From Leaspy Require Dag.DagModel Locality.AxisTypes.
+From Leaspy Require Import Compose.DagState Compose.DagStateProofs Compose.DagStateExamples
+                           Compose.AxisState Compose.AxisStateProofs Compose.AxisStateExamples.
+
+(** C15 discharges C01's graph hypothesis: for EVERY set of definitions the modelled constructor accepts. *)
+Theorem C01_built_graph_wf :
+  forall (V : Type) (defs : list (vdef V)) (r : DagModel.dag) (v0 : V),
+    DagModel.build (dag_of_defs defs) = DagModel.Ok r -> WF (graph_of_build defs r v0).
+Proof. exact built_graph_WF. Qed.
+Print Assumptions C01_built_graph_wf.
+
+(** ... and the constructor accepts every set of definitions without cycle, self reference, unknown reference or isolated
+    variable (C15_accepts), so the statements below are about all of them. *)
+Theorem C01_accepted_defs_have_wf_graph :
+  forall (V : Type) (defs : list (vdef V)) (v0 : V),
+    ~ DagModel.cyclic (dag_of_defs defs) -> ~ DagModel.self_loop (dag_of_defs defs) ->
+    ~ DagModel.unknown_ref (dag_of_defs defs) -> ~ DagModel.isolated (dag_of_defs defs) ->
+    exists r, DagModel.build (dag_of_defs defs) = DagModel.Ok r /\ WF (graph_of_build defs r v0).
+Proof. exact accepted_defs_have_WF_graph. Qed.
+Print Assumptions C01_accepted_defs_have_wf_graph.
+
+(** [C01_never_stale] with NO graph hypothesis: every set of definitions accepted by the constructor, every history, every read. *)
+Theorem C01_never_stale_built :
+  forall (V M IX : Type) (defs : list (vdef V)) (r : DagModel.dag) (v0 : V) (sm : sem V M IX),
+    DagModel.build (dag_of_defs defs) = DagModel.Ok r ->
+    F_mix (graph_of_build defs r v0) sm ->
+    forall ops, MaskDisciplined (graph_of_build defs r v0) sm (init_store (graph_of_build defs r v0)) ops ->
+    forall k i st v,
+      nth_error (fst (run_now (graph_of_build defs r v0) sm (init_store (graph_of_build defs r v0)) ops)) k = Some st ->
+      snd (step_now (graph_of_build defs r v0) sm
+             (fst (run_now (graph_of_build defs r v0) sm (init_store (graph_of_build defs r v0)) ops)) (Get k i)) = Ok v ->
+      scratch (graph_of_build defs r v0) (values st) i = Some v.
+Proof. exact never_stale_built. Qed.
+Print Assumptions C01_never_stale_built.
+
+(** Histories without per-individual reverts: NO hypothesis at all besides acceptance by the constructor — neither on the
+    graph nor on the node functions ([F_mix] is only used by the partial revert; such a history runs identically under a
+    [mix] that always refuses, for which [F_mix] is vacuous). *)
+Theorem C01_never_stale_full_reverts_built :
+  forall (V M IX : Type) (defs : list (vdef V)) (r : DagModel.dag) (v0 : V) (sm : sem V M IX),
+    DagModel.build (dag_of_defs defs) = DagModel.Ok r ->
+    forall ops, forallb (@no_partial_revert V M IX) ops = true ->
+    forall k i st v,
+      nth_error (fst (run_now (graph_of_build defs r v0) sm (init_store (graph_of_build defs r v0)) ops)) k = Some st ->
+      snd (step_now (graph_of_build defs r v0) sm
+             (fst (run_now (graph_of_build defs r v0) sm (init_store (graph_of_build defs r v0)) ops)) (Get k i)) = Ok v ->
+      scratch (graph_of_build defs r v0) (values st) i = Some v.
+Proof. exact never_stale_full_reverts_built. Qed.
+Print Assumptions C01_never_stale_full_reverts_built.
+
+(** The same for any well-formed graph: [C01_never_stale_full_reverts] does not need [F_mix]. *)
+Theorem C01_never_stale_full_reverts_nomix :
+  forall (V M IX : Type) (g : graph V) (sm : sem V M IX), WF g ->
+    forall ops, forallb (@no_partial_revert V M IX) ops = true ->
+    forall k i st v,
+      nth_error (fst (run_now g sm (init_store g) ops)) k = Some st ->
+      snd (step_now g sm (fst (run_now g sm (init_store g) ops)) (Get k i)) = Ok v ->
+      scratch g (values st) i = Some v.
+Proof. exact never_stale_full_reverts_nomix. Qed.
+Print Assumptions C01_never_stale_full_reverts_nomix.
+
+(** The specification itself no longer depends on the constructor: on a built graph, [scratch] — a fold along [order r] —
+    is the order-free relation [Eval defs ind] on the definitions BY NAME (least relation: an independent variable has the
+    value it holds; a linked variable is its function of the values of its parameters); [by_name r vs] reads the table [vs]
+    of the State at the node of a name. *)
+Theorem C01_scratch_is_by_name :
+  forall (V : Type) (defs : list (vdef V)) (r : DagModel.dag) (v0 : V),
+    DagModel.build (dag_of_defs defs) = DagModel.Ok r ->
+    forall (vs : vals V) (k : nat) (v : V), k < length defs ->
+      (scratch (graph_of_build defs r v0) vs k = Some v <-> Eval defs (by_name V r vs) (nth k (DagModel.order r) 0) v).
+Proof. exact scratch_by_name. Qed.
+Print Assumptions C01_scratch_is_by_name.
+
+(** End to end, by name: after any history, reading the variable NAMED [x] returns [v] iff [v] is the value the definitions
+    give to [x] from the independent values the state holds; it fails — always with the input error — iff they give none. *)
+Theorem C01_read_by_name_built :
+  forall (V M IX : Type) (defs : list (vdef V)) (r : DagModel.dag) (v0 : V) (sm : sem V M IX),
+    DagModel.build (dag_of_defs defs) = DagModel.Ok r ->
+    F_mix (graph_of_build defs r v0) sm ->
+    forall ops, MaskDisciplined (graph_of_build defs r v0) sm (init_store (graph_of_build defs r v0)) ops ->
+    forall k x st, x < length defs ->
+      nth_error (fst (run_now (graph_of_build defs r v0) sm (init_store (graph_of_build defs r v0)) ops)) k = Some st ->
+      let res := snd (step_now (graph_of_build defs r v0) sm
+                        (fst (run_now (graph_of_build defs r v0) sm (init_store (graph_of_build defs r v0)) ops))
+                        (Get k (index_of x (DagModel.order r)))) in
+      (forall v, res = Ok v <-> Eval defs (by_name V r (values st)) x v) /\
+      (res = Err InputError <-> forall v, ~ Eval defs (by_name V r (values st)) x v) /\
+      (forall e, res = Err e -> e = InputError).
+Proof. exact read_by_name_built. Qed.
+Print Assumptions C01_read_by_name_built.
+
+Theorem C01_read_by_name_full_reverts_built :
+  forall (V M IX : Type) (defs : list (vdef V)) (r : DagModel.dag) (v0 : V) (sm : sem V M IX),
+    DagModel.build (dag_of_defs defs) = DagModel.Ok r ->
+    forall ops, forallb (@no_partial_revert V M IX) ops = true ->
+    forall k x st, x < length defs ->
+      nth_error (fst (run_now (graph_of_build defs r v0) sm (init_store (graph_of_build defs r v0)) ops)) k = Some st ->
+      let res := snd (step_now (graph_of_build defs r v0) sm
+                        (fst (run_now (graph_of_build defs r v0) sm (init_store (graph_of_build defs r v0)) ops))
+                        (Get k (index_of x (DagModel.order r)))) in
+      (forall v, res = Ok v <-> Eval defs (by_name V r (values st)) x v) /\
+      (res = Err InputError <-> forall v, ~ Eval defs (by_name V r (values st)) x v) /\
+      (forall e, res = Err e -> e = InputError).
+Proof. exact read_by_name_full_reverts_built. Qed.
+Print Assumptions C01_read_by_name_full_reverts_built.
+
+(** C07 discharges [F_mix] as well.  [G] any graph of the individual-axis type system (Locality/AxisTypes.v), [fs] any node
+    functions of the form their op-kind dictates, [n] individuals; [defs_of_axis] turns the nodes into definitions whose
+    functions are the op-kind semantics of AxisTypes.v ([axis_fun] = the [Linked] branch of [eval_node]); [axis_sem] is the
+    row-wise selection of [State.revert(subset)] on per-individual values (it refuses a value without the individual axis —
+    the misuse the documented precondition excludes).  Pointwise / BroadcastPop / RowMatMul / ReduceOther / ReduceInd /
+    Opaque nodes with any number of parents.  What is left: acceptance by the constructor and the documented precondition
+    of per-individual reverts. *)
+Theorem C01_never_stale_opkinds_built :
+  forall (A : Type) (add : A -> A -> A) (IX : Type) (put : option IX -> aval A -> bool -> aval A -> option (aval A))
+         (G : AxisTypes.graph) (fs : nat -> AxisTypes.nodefun A) (n : nat) (r : DagModel.dag) (v0 : aval A),
+    DagModel.build (dag_of_defs (defs_of_axis A add G fs n)) = DagModel.Ok r ->
+    forall ops,
+      MaskDisciplined (graph_of_build (defs_of_axis A add G fs n) r v0) (axis_sem A IX put)
+                      (init_store (graph_of_build (defs_of_axis A add G fs n) r v0)) ops ->
+    forall k i st v,
+      nth_error (fst (run_now (graph_of_build (defs_of_axis A add G fs n) r v0) (axis_sem A IX put)
+                        (init_store (graph_of_build (defs_of_axis A add G fs n) r v0)) ops)) k = Some st ->
+      snd (step_now (graph_of_build (defs_of_axis A add G fs n) r v0) (axis_sem A IX put)
+             (fst (run_now (graph_of_build (defs_of_axis A add G fs n) r v0) (axis_sem A IX put)
+                     (init_store (graph_of_build (defs_of_axis A add G fs n) r v0)) ops)) (Get k i)) = Ok v ->
+      scratch (graph_of_build (defs_of_axis A add G fs n) r v0) (values st) i = Some v.
+Proof. exact never_stale_axis. Qed.
+Print Assumptions C01_never_stale_opkinds_built.
+
+(** Non-vacuity: definitions whose name order is not topological are accepted; a history with a rejected proposal runs on the
+    built graph and its last read is the by-name from-scratch value; on a well-typed graph with two-parent Pointwise /
+    ReduceOther nodes and an aggregate a history with a per-individual rejection meets the precondition and the read of
+    the per-individual term afterwards is the from-scratch value (rows 0, 2 old, row 1 from the proposal). *)
+Theorem C01_compose_examples :
+  (DagModel.build (dag_of_defs ex_defs) = DagModel.Ok ex_r /\ DagModel.order ex_r = [1; 2; 4; 0; 3; 5]) /\
+  (exists st, nth_error (fst (run_now ex_g ex_sem (init_store ex_g) ex_ops)) 0 = Some st /\
+              by_name Z ex_r (values st) 1 = Some 10%Z /\ Eval ex_defs (by_name Z ex_r (values st)) 5 (-7)%Z) /\
+  (AxisTypes.well_typed toy2 = true /\ DagModel.build (dag_of_defs toy2_defs) = DagModel.Ok toy2_r /\
+   DagModel.order toy2_r = AxisTypes.g_order toy2) /\
+  (exists st, nth_error (fst (run_now toy2_g toy2_sem (init_store toy2_g) toy2_ops)) 0 = Some st /\
+              scratch toy2_g (values st) (p2 1) = Some (Some (AxisTypes.VInd [[1]; [4]; [58]]%Z))).
+Proof. split; [exact ex_accepted | split; [exact ex_by_name | split; [exact toy2_accepted | exact toy2_fresh]]]. Qed.
+Print Assumptions C01_compose_examples.
+
+(** * C01 and C07 speak about the same values (Compose/AxisEval.v).
+    On a well-typed graph accepted by the constructor, what the State reads after ANY history respecting the documented
+    precondition is [AxisTypes.eval] — the from-scratch evaluation the theorems of C07 are about — of the inputs the state
+    holds ([holds_inputs]: each independent variable holds the shape-checked input).  [eval] walks the checker's order,
+    [scratch] the constructor's; they are tied by the fixed-point property of [eval] (C07_consistent). *)
+From Leaspy Require Locality.AxisProofs.
+From Leaspy Require Import Compose.AxisEval.
+
+Theorem C01_reads_are_C07_eval :
+  forall (A : Type) (add : A -> A -> A) (G : AxisTypes.graph) (fs : nat -> AxisTypes.nodefun A) (n : nat)
+         (r : DagModel.dag) (v0 : aval A),
+    AxisTypes.well_typed G = true ->
+    DagModel.build (dag_of_defs (defs_of_axis A add G fs n)) = DagModel.Ok r ->
+  forall (IX : Type) (put : option IX -> aval A -> bool -> aval A -> option (aval A))
+         (ops : list (op (aval A) (list bool) IX)),
+    MaskDisciplined (graph_of_build (defs_of_axis A add G fs n) r v0) (axis_sem A IX put)
+                    (init_store (graph_of_build (defs_of_axis A add G fs n) r v0)) ops ->
+  forall k x st (inp : nat -> AxisTypes.value A), x < length (AxisTypes.g_nodes G) ->
+    nth_error (fst (run_now (graph_of_build (defs_of_axis A add G fs n) r v0) (axis_sem A IX put)
+                      (init_store (graph_of_build (defs_of_axis A add G fs n) r v0)) ops)) k = Some st ->
+    holds_inputs A add G fs n r inp (values st) ->
+    snd (step_now (graph_of_build (defs_of_axis A add G fs n) r v0) (axis_sem A IX put)
+           (fst (run_now (graph_of_build (defs_of_axis A add G fs n) r v0) (axis_sem A IX put)
+                   (init_store (graph_of_build (defs_of_axis A add G fs n) r v0)) ops))
+           (Get k (index_of x (DagModel.order r)))) = Ok (AxisTypes.eval A add G fs inp n x).
+Proof. exact read_is_eval. Qed.
+Print Assumptions C01_reads_are_C07_eval.
+
+(** Hence C07_locality is a statement about what the State READS: two cohorts, two arbitrary histories, states holding inputs
+    that agree on the population values and on one individual's row — every read of a per-individual variable returns the
+    same row for that individual. *)
+Theorem C01_reads_row_local :
+  forall (A : Type) (add : A -> A -> A) (G : AxisTypes.graph) (fs : nat -> AxisTypes.nodefun A)
+         (IX : Type) (put : option IX -> aval A -> bool -> aval A -> option (aval A))
+         (n1 n2 : nat) (r1 r2 : DagModel.dag) (v0 : aval A),
+  AxisTypes.well_typed G = true ->
+  DagModel.build (dag_of_defs (defs_of_axis A add G fs n1)) = DagModel.Ok r1 ->
+  DagModel.build (dag_of_defs (defs_of_axis A add G fs n2)) = DagModel.Ok r2 ->
+  forall ops1 ops2 k1 k2 st1 st2 (inp1 inp2 : nat -> AxisTypes.value A) j1 j2,
+    MaskDisciplined (graph_of_build (defs_of_axis A add G fs n1) r1 v0) (axis_sem A IX put)
+                    (init_store (graph_of_build (defs_of_axis A add G fs n1) r1 v0)) ops1 ->
+    MaskDisciplined (graph_of_build (defs_of_axis A add G fs n2) r2 v0) (axis_sem A IX put)
+                    (init_store (graph_of_build (defs_of_axis A add G fs n2) r2 v0)) ops2 ->
+    nth_error (fst (run_now (graph_of_build (defs_of_axis A add G fs n1) r1 v0) (axis_sem A IX put)
+                      (init_store (graph_of_build (defs_of_axis A add G fs n1) r1 v0)) ops1)) k1 = Some st1 ->
+    nth_error (fst (run_now (graph_of_build (defs_of_axis A add G fs n2) r2 v0) (axis_sem A IX put)
+                      (init_store (graph_of_build (defs_of_axis A add G fs n2) r2 v0)) ops2)) k2 = Some st2 ->
+    holds_inputs A add G fs n1 r1 inp1 (values st1) -> holds_inputs A add G fs n2 r2 inp2 (values st2) ->
+    j1 < n1 -> j2 < n2 ->
+    AxisProofs.indep_inputs_related A G (fun v1 v2 => AxisTypes.reindex A [j1] v1 = AxisTypes.reindex A [j2] v2) inp1 inp2 ->
+    forall x nd, nth_error (AxisTypes.g_nodes G) x = Some nd -> AxisTypes.n_sig nd = AxisTypes.Ind ->
+    forall w1 w2,
+      snd (step_now (graph_of_build (defs_of_axis A add G fs n1) r1 v0) (axis_sem A IX put)
+             (fst (run_now (graph_of_build (defs_of_axis A add G fs n1) r1 v0) (axis_sem A IX put)
+                     (init_store (graph_of_build (defs_of_axis A add G fs n1) r1 v0)) ops1))
+             (Get k1 (index_of x (DagModel.order r1)))) = Ok (Some w1) ->
+      snd (step_now (graph_of_build (defs_of_axis A add G fs n2) r2 v0) (axis_sem A IX put)
+             (fst (run_now (graph_of_build (defs_of_axis A add G fs n2) r2 v0) (axis_sem A IX put)
+                     (init_store (graph_of_build (defs_of_axis A add G fs n2) r2 v0)) ops2))
+             (Get k2 (index_of x (DagModel.order r2)))) = Ok (Some w2) ->
+      AxisTypes.vrow A j1 w1 = AxisTypes.vrow A j2 w2.
+Proof. exact reads_row_local. Qed.
+Print Assumptions C01_reads_row_local.
+
+(** Non-vacuity of [holds_inputs]: the state reached by the history of [C01_compose_examples] holds g = 10,
+    xi = [1; 3; 3], y = ys1, and the value it reads for nll_ind is C07's evaluation of these inputs. *)
+Theorem C01_reads_eval_example : exists st,
+  nth_error (fst (run_now toy2_g toy2_sem (init_store toy2_g) toy2_ops)) 0 = Some st /\
+  holds_inputs Z Z.add toy2 toy2_fs 3 toy2_r toy2_inp (values st) /\
+  AxisTypes.eval Z Z.add toy2 toy2_fs toy2_inp 3 1 = Some (AxisTypes.VInd [[1]; [4]; [58]]%Z).
+Proof. exact toy2_reads_eval. Qed.
+Print Assumptions C01_reads_eval_example.
